@@ -26,6 +26,7 @@ type LeaseScenario struct {
 	PhasePct int    `json:"phase_pct,omitempty"` // death: the holder dies at this % of the lease after locking or after a renewal
 	Renewals int    `json:"renewals,omitempty"`  // death: number of successful renewals before the death
 	After    bool   `json:"after,omitempty"`     // unlockrace: the renewal in flight is applied before Unlock runs
+	Same     bool   `json:"same,omitempty"`      // handoff: the second tenure is on the same Locker object (else on another provider's)
 }
 
 var leaseMu sync.Mutex
@@ -83,6 +84,8 @@ func runLease(s LeaseScenario) (info LeaseInfo, v *vstat.Violation, exact bool) 
 		return runDeath(s)
 	case "unlockrace":
 		return runUnlockRace(s)
+	case "handoff":
+		return runHandoff(s)
 	}
 	panic("bad scenario " + s.Kind)
 }
@@ -313,5 +316,59 @@ func runUnlockRace(s LeaseScenario) (info LeaseInfo, v *vstat.Violation, exact b
 		return info, vstat.V("lease:not-released", "lease %v: after the second Unlock a contender's TryLock returns false", L), true
 	}
 	b.Unlock()
+	return info, nil, false
+}
+
+// handoff: a first tenure ends at some phase of its renewal cycle and a second tenure starts at once. Whatever is left
+// of the first tenure's renewal chain must not touch the second tenure's record: it stays present and unexpired for
+// three leases and a contender stays excluded.
+func runHandoff(s LeaseScenario) (info LeaseInfo, v *vstat.Violation, exact bool) {
+	L := time.Duration(s.LeaseMs) * time.Millisecond
+	inner := inmem.New()
+	fa, fb, fc := gated.NewFaulty(inner), gated.NewFaulty(inner), gated.NewFaulty(inner)
+	pa, pb, pc := newProvider(fa, L), newProvider(fb, L), newProvider(fc, L)
+	defer pa.Shutdown()
+	defer pb.Shutdown()
+	defer pc.Shutdown()
+	a, b, c := pa.NewLocker("lease"), pb.NewLocker("lease"), pc.NewLocker("lease")
+	second := b
+	if s.Same {
+		second = a
+	}
+	ctx := context.Background()
+	t0 := time.Now()
+	a.Lock()
+	// end the first tenure at the given phase of the renewal cycle (after s.Renewals renewals)
+	time.Sleep(time.Duration(s.Renewals)*L/2 + L/2*time.Duration(s.PhasePct)/100)
+	a.Unlock()
+	second.Lock()
+	t1 := time.Now()
+	held := true
+	defer func() {
+		if held {
+			second.Unlock()
+		}
+	}()
+	for time.Since(t1) < 3*L {
+		time.Sleep(L / 5)
+		info.Samples++
+		now := time.Now()
+		r, err := inner.Get(ctx, leaseKey)
+		if err != nil || r.ExpiresAt == nil || !r.ExpiresAt.After(now) {
+			return info, vstat.V("lease:second-tenure-lapsed", "lease %v: %.1f leases into the second tenure its record is missing or expired (err=%v); storage calls of the first holder:%s\n  of the second:%s",
+				L, float64(now.Sub(t1))/float64(L), err, describeEvents(fa.Events(), t0), describeEvents(fb.Events(), t0)), false
+		}
+		if c.TryLock(ctx) {
+			c.Unlock()
+			return info, vstat.V("lease:contender-acquired-while-held", "lease %v: %.1f leases into the second tenure a contender acquired the lock; storage calls of the first holder:%s",
+				L, float64(now.Sub(t1))/float64(L), describeEvents(fa.Events(), t0)), false
+		}
+	}
+	second.Unlock()
+	held = false
+	if !c.TryLock(ctx) {
+		return info, vstat.V("lease:not-released", "lease %v: after the second Unlock a contender's TryLock returns false", L), true
+	}
+	c.Unlock()
 	return info, nil, false
 }
